@@ -8,6 +8,7 @@
    is a subset of ECMAScript by construction and by test against V8
    (go/cmd/soyverif/c14_wf.go), not by proof. *)
 (* source tie by translation: the lemmas of these files are obligations of this property *)
+From Soy Require Import Proofs.JsWfFlag.
 From Soy Require Import Proofs.SourceTieJs Proofs.SourceTieJsScope Proofs.SourceTieJsText.
 From Soy Require Import Model.Bytes Model.Num Model.Values Model.Outcome Model.Ast Model.Utf8 Model.JsEscape
   Generated.Tables Model.JsGen Spec.Codec Spec.JsOut Proofs.Utf8Proofs Proofs.CodecProofs
@@ -16,16 +17,24 @@ From Soy Require Import Model.Bytes Model.Num Model.Values Model.Outcome Model.A
 Open Scope N_scope.
 
 (* ---------------- what the escaper guarantees for one literal ---------------- *)
-(* A CStrLit chunk is rendered as quote, JSEscape(s), quote.  For valid UTF-8
-   whose runes are in the BMP or printable, the ECMAScript reader gives back
-   exactly s -- in particular the body has no unescaped quote of its kind, no
-   raw LF / CR / U+2028 / U+2029 and no dangling backslash (the reader rejects
-   those) -- and, for EVERY s, the body contains no LF CR < > & = bytes, hence
-   no "</" (so no "</script>"), no "<!--", no "-->", no "]]>". *)
+(* A CStrLit chunk is rendered as quote, lit_body s, quote, where lit_body s is
+   the escaper soy calls applied to s (C14_lit_body: text/template's JSEscape, or
+   internal/jsescape when the tree under test calls that -- jsstr_pair_js is read
+   from soyjs/exec.go by tablegen).  For valid UTF-8 -- and, only while the
+   library's escaper is called, runes in the BMP or printable (lit_guard) -- the
+   ECMAScript reader gives back exactly s -- in particular the body has no
+   unescaped quote of its kind, no raw LF / CR / U+2028 / U+2029 and no dangling
+   backslash (the reader rejects those) -- and, for EVERY s, the body contains no
+   LF CR < > & = bytes, hence no "</" (so no "</script>"), no "<!--", no "-->",
+   no "]]>". *)
+Theorem C14_lit_body : forall s, lit_body s = js_escape_soy jsstr_pair_js is_print_tbl s.
+Proof. exact lit_body_eq. Qed.
+Print Assumptions C14_lit_body.
+
 Theorem C14_strlit_denotes : forall q s, q = 39 \/ q = 34 -> lit_guard s ->
-  render_chunk is_print_tbl (CStrLit q s) = q :: js_escape is_print_tbl s ++ [q]
-  /\ js_read_literal_q q (js_escape is_print_tbl s) = Some s
-  /\ Forall js_inert (js_escape is_print_tbl s).
+  render_chunk is_print_tbl (CStrLit q s) = q :: lit_body s ++ [q]
+  /\ js_read_literal_q q (lit_body s) = Some s
+  /\ Forall js_inert (lit_body s).
 Proof. exact strlit_denotes. Qed.
 Print Assumptions C14_strlit_denotes.
 
@@ -72,19 +81,32 @@ Print Assumptions C14_walk_chunks_wf.
 Theorem C14_literals_denote : forall o fuel name body cs, gen_file o fuel name body = Ok cs ->
   forall q s, In (CStrLit q s) cs -> lit_guard s ->
     (q = 39 \/ q = 34)
-    /\ js_read_literal_q q (js_escape is_print_tbl s) = Some s
-    /\ Forall js_inert (js_escape is_print_tbl s).
+    /\ js_read_literal_q q (lit_body s) = Some s
+    /\ Forall js_inert (lit_body s).
 Proof. exact literals_denote. Qed.
 Print Assumptions C14_literals_denote.
 
-(* FULL statement (no guard on astral non-printable runes) is FALSE of the
-   faithful model: text/template.JSEscape writes such a rune with five or six
-   hex digits (finding js-literal-astral-nonprint-5hex). *)
-Theorem C14_literals_astral_refuted :
+(* While the tree calls the library's escaper (jsstr_pair_js = false) the FULL
+   statement (no guard on astral non-printable runes) is FALSE of the faithful
+   model: text/template.JSEscape writes such a rune with five or six hex digits
+   (finding js-literal-astral-nonprint-5hex).  With internal/jsescape
+   (jsstr_pair_js = true) lit_guard is utf8_valid alone and the theorems above
+   are the full statement. *)
+Theorem C14_literals_astral_refuted : jsstr_pair_js = false ->
   exists s, utf8_valid s = true
             /\ render_chunk is_print_tbl (CStrLit 39 s) = [39; 92; 117; 70; 48; 48; 48; 48; 39]
-            /\ js_read_literal_q 39 (js_escape is_print_tbl s) <> Some s.
+            /\ js_read_literal_q 39 (lit_body s) <> Some s.
 Proof. exact literals_astral_refuted. Qed.
+
+(* the full statement, for a tree that calls internal/jsescape *)
+Theorem C14_literals_denote_repaired : jsstr_pair_js = true ->
+  forall o fuel name body cs, gen_file o fuel name body = Ok cs ->
+  forall q s, In (CStrLit q s) cs -> utf8_valid s = true ->
+    (q = 39 \/ q = 34)
+    /\ js_read_literal_q q (lit_body s) = Some s
+    /\ Forall js_inert (lit_body s).
+Proof. exact literals_denote_repaired. Qed.
+Print Assumptions C14_literals_denote_repaired.
 Print Assumptions C14_literals_astral_refuted.
 
 (* ---------------- the emission sites ---------------- *)
@@ -168,8 +190,8 @@ ns.a.t = function(opt_data, opt_sb, opt_ijData) {
 };
 "
     /\ In (CStrLit 39 (b "it's </script>")) cs /\ In (CStrLit 34 (b "a""b")) cs /\ In (CStrLit 39 [226; 128; 168; 92]) cs
-    /\ js_read_literal_q 34 (js_escape is_print_tbl (b "a""b")) = Some (b "a""b")
-    /\ js_read_literal_q 39 (js_escape is_print_tbl [226; 128; 168; 92]) = Some [226; 128; 168; 92]
+    /\ js_read_literal_q 34 (lit_body (b "a""b")) = Some (b "a""b")
+    /\ js_read_literal_q 39 (lit_body [226; 128; 168; 92]) = Some [226; 128; 168; 92]
     /\ defined_names cs = [b "ns.a.t"] /\ declared_objects cs = [b "ns"; b "ns.a"].
 Proof.
   eexists. split; [vm_compute; reflexivity|]. vm_compute.
@@ -218,18 +240,39 @@ Proof. vm_compute. repeat split; reflexivity. Qed.
      - the recogniser js_parse of Spec/JsSyntax.v accepts the tokens (Script or Module according to the formatter),
      - the function definitions of the parse are exactly the file's templates, in order, under their qualified
        names (ES5) / ES6 identifiers,
-     - and the tokens are bracket balanced: every ) ] } closes the innermost open bracket, of its own kind.
-   MISSING for the full statement: (2) that the Soy parser's output
-   satisfies file_chk -- the harness evaluates file_chk on every accepted file it generates and reports how many
-   pass; (3) lex_bytes (render_chunks cs) = lex_chunks cs -- the harness compares the two token lists on every
-   generated file; (4) that the grammar is a subset of ECMAScript -- tested against V8 on the generated files and
-   on mutants, no formal ECMAScript grammar exists here. *)
+     - the tokens are bracket balanced: every ) ] } closes the innermost open bracket, of its own kind,
+     - and the BYTES of the file -- the rendering of the chunk list, for every predicate is_print that
+       text/template.JSEscape may consult -- lex, with the byte lexer lex_bytes, to exactly these tokens: no two
+       adjacent chunks share a token, no chunk boundary splits one (identifiers, numbers, punctuators by maximal
+       munch, the header comment, string literals, the 'line break before' flag).  So the statement is about the
+       file soyjs writes (the model's bytes are tied byte for byte to soyjs.Write by the correspondence).
+   MISSING for the full statement: (2) that the Soy parser's output satisfies file_chk -- the harness evaluates
+   file_chk on every accepted file it generates and reports how many pass; (4) that the grammar is a subset of
+   ECMAScript -- tested against V8 on the generated files and on mutants, no formal ECMAScript grammar exists here. *)
 Theorem C14_gen_output_parses_partial : forall o fuel fk name body cs,
   file_chk (o_fmt o) fk body = true -> gen_file o fuel name body = Ok cs ->
   exists ts prog, lex_chunks cs = Some ts /\ js_parse (is_module (o_fmt o)) ts = Some prog
-    /\ prog_funs prog = map (fname o) (template_names body) /\ bracket_balanced ts = true.
+    /\ prog_funs prog = map (fname o) (template_names body) /\ bracket_balanced ts = true
+    /\ forall is_print, lex_bytes (render_chunks is_print cs) = Some ts.
 Proof. exact gen_file_parses. Qed.
 Print Assumptions C14_gen_output_parses_partial.
+
+(* the same, said of the bytes alone: the file soyjs writes lexes and parses, and defines its templates *)
+Theorem C14_gen_bytes_parse_partial : forall o fuel fk name body cs is_print,
+  file_chk (o_fmt o) fk body = true -> gen_file o fuel name body = Ok cs ->
+  exists ts prog, lex_bytes (render_chunks is_print cs) = Some ts /\ js_parse (is_module (o_fmt o)) ts = Some prog
+    /\ prog_funs prog = map (fname o) (template_names body) /\ bracket_balanced ts = true.
+Proof.
+  intros o fuel fk name body cs ip Hc Hg. destruct (gen_file_parses o fuel fk name body cs Hc Hg) as (ts & prog & _ & P & F & B & Y).
+  exists ts, prog. auto.
+Qed.
+Print Assumptions C14_gen_bytes_parse_partial.
+
+(* a token the lexers flagged 'line break before' is never part of an accepted token list: the restricted production
+   (no line terminator before a postfix ++) is enforced by the recogniser, not by refusing the text in the lexer *)
+Theorem C14_js_parse_unflagged : forall md ts p, js_parse md ts = Some p -> existsb tok_flagged ts = false.
+Proof. exact js_parse_unflagged. Qed.
+Print Assumptions C14_js_parse_unflagged.
 
 (* whatever the recogniser accepts -- model tokens, tokens of real bytes, anything -- is bracket balanced *)
 Theorem C14_js_parse_balanced : forall md ts p, js_parse md ts = Some p -> bracket_balanced ts = true.
